@@ -166,23 +166,33 @@ func settingsGrid(cfg complib.Cfg) []setting {
 	return g
 }
 
-// pickSettings takes one builder run and k-1 distinct batch runs of the grid.
-func pickSettings(r *hlib.Rng, cfg complib.Cfg, k int) []setting {
+// pickSettings takes k runs of the grid: one builder run if withBuilder, at most one
+// batch run with BatchNumParallel 0 (made in a child process) and only if withPar0.
+func pickSettings(r *hlib.Rng, cfg complib.Cfg, k int, withBuilder, withPar0 bool) []setting {
 	g := settingsGrid(cfg)
 	if cfg.CDB || k >= len(g) {
 		return g
 	}
-	var bl, ba []setting
+	var bl, ba, b0 []setting
 	for _, s := range g {
-		if s.mode == "builder" {
+		switch {
+		case s.mode == "builder":
 			bl = append(bl, s)
-		} else {
+		case s.par == 0:
+			b0 = append(b0, s)
+		default:
 			ba = append(ba, s)
 		}
 	}
-	res := []setting{bl[r.Intn(len(bl))]}
+	var res []setting
+	if withBuilder {
+		res = append(res, bl[r.Intn(len(bl))])
+	}
+	if withPar0 {
+		res = append(res, b0[r.Intn(len(b0))])
+	}
 	r.Shuffle(len(ba), func(i, j int) { ba[i], ba[j] = ba[j], ba[i] })
-	return append(res, ba[:k-1]...)
+	return append(res, ba[:k-len(res)]...)
 }
 
 // runCompileCase compiles file under every setting (in parallel, separate directories).
@@ -535,17 +545,15 @@ func run(a *hlib.Args, e *hlib.Emitter) error {
 		}
 		file := genSmallFile(r, class)
 		cfgName := []string{"v1", "v2"}[i%2]
-		sets := pickSettings(r, cfgOf(cfgName), perCase)
-		if !thorough && i%2 == 1 && class != "reject" {
-			sets = sets[1:] // a Builder costs about 1 GB of zeroed memory: every other file in the quick tier
-		}
+		// a Builder costs about 1 GB of zeroed memory and a child process a second: few of them in the quick tier
+		sets := pickSettings(r, cfgOf(cfgName), perCase, thorough || i%3 == 0 || class == "reject", thorough || i%3 == 1)
 		c, err := runCompileCase(a.Scratch, class, cfgName, file, sets, true, ncpu)
 		if err != nil {
 			return err
 		}
 		e.Emit(c)
 		if i%2 == 0 || thorough {
-			c, err = runCompileCase(a.Scratch, class, "cdb", file, pickSettings(r, cfgOf("cdb"), 3), true, ncpu)
+			c, err = runCompileCase(a.Scratch, class, "cdb", file, pickSettings(r, cfgOf("cdb"), 3, false, false), true, ncpu)
 			if err != nil {
 				return err
 			}
@@ -561,7 +569,7 @@ func run(a *hlib.Args, e *hlib.Emitter) error {
 	}
 	var bigs []big
 	if a.N > 0 {
-		bigs = append(bigs, big{2500, []setting{{"builder", 16, 0, 0}, {"batches", 2, 7, 4}, {"batches", 16, 1000, 4}, {"batches", 1, 100000, 1}}})
+		bigs = append(bigs, big{2500, []setting{{"builder", 16, 0, 0}, {"batches", 2, 64, 4}, {"batches", 16, 1000, 0}, {"batches", 1, 100000, 1}}})
 	}
 	if thorough {
 		bigs = append(bigs,
@@ -578,7 +586,7 @@ func run(a *hlib.Args, e *hlib.Emitter) error {
 				sets = []setting{{"cdb", 1, 0, 0}, {"cdb", 16, 0, 0}}
 			}
 			if !thorough && cfgName == "v2" && bi == 0 {
-				sets = sets[:2]
+				sets = sets[1:2]
 			}
 			c, err := runCompileCase(a.Scratch, "big", cfgName, file, sets, false, ncpu)
 			if err != nil {
